@@ -243,6 +243,15 @@ func (f *Frame) backProv(v ssa.Value, li *loopInfo, seen map[ssa.Value]bool) pro
 
 func (li *loopInfo) _unused() {}
 
+func sortedRanges(m map[*ssa.Range]string) []*ssa.Range {
+	var rs []*ssa.Range
+	for r := range m {
+		rs = append(rs, r)
+	}
+	sort.Slice(rs, func(i, j int) bool { return rs[i].Name() < rs[j].Name() })
+	return rs
+}
+
 // loopStoresTo: the loop body itself assigns the variable.
 func (f *Frame) loopStoresTo(li *loopInfo, a *ssa.Alloc) bool {
 	for b := range li.blocks {
@@ -629,8 +638,12 @@ func (f *Frame) enterLoop(li *loopInfo, back map[[2]*ssa.BasicBlock]bool) {
 			}
 		}
 	}
+	cellSet := map[cellKey]bool{}
 	for c := range li.cells {
-		k := cellKey{c, f}
+		cellSet[cellKey{c, f}] = true
+	}
+	for _, k := range sortedCellKeys(cellSet) {
+		c := k.a
 		old, ok := f.st.cells[k]
 		if !ok {
 			continue // allocated inside the loop
@@ -673,7 +686,7 @@ func (f *Frame) enterLoop(li *loopInfo, back map[[2]*ssa.BasicBlock]bool) {
 		f.regs[p] = v
 	}
 	headVis := map[*ssa.Range]string{}
-	for r := range initVis {
+	for _, r := range sortedRanges(initVis) {
 		mt := r.X.Type().Underlying().(*types.Map)
 		mc := ex.S.mapContent(mt)
 		ks := ex.S.mapConts[mc][0]
@@ -695,7 +708,8 @@ func (f *Frame) enterLoop(li *loopInfo, back map[[2]*ssa.BasicBlock]bool) {
 		ex.assume(implies(lh, substSX(a, envHead)))
 	}
 	// visited ⊆ dom(map) for map ranges (the iterated map must not be modified inside the loop)
-	for r, hv := range headVis {
+	for _, r := range sortedRanges(headVis) {
+		hv := headVis[r]
 		mt := r.X.Type().Underlying().(*types.Map)
 		heap := ex.S.heapForMap(mt)
 		if li.all {
